@@ -5,14 +5,12 @@
 // the checker read-only access to two unexported things.
 package utreexo
 
+import "github.com/utreexo/utreexo/verifsync"
+
 // VerifTranslatePos exposes translatePos (C16).
 func VerifTranslatePos(pos uint64, from, to uint8) uint64 { return translatePos(pos, from, to) }
 
-// VerifLock exposes the map forest's lock for lock-discipline checks (C12). In the vmcx build
-// mappollard.go imports the verifsync shim instead of sync, so rwLock has these methods.
-func (m *MapPollard) VerifLock() interface {
-	HeldW() bool
-	HeldR() bool
-} {
-	return m.rwLock
-}
+// VerifLock exposes the map forest's lock so that a harness can attach its scheduler to it and
+// check the lock discipline (C12). In the vmcx build mappollard.go imports the verifsync shim
+// instead of sync, so rwLock is a *verifsync.RWMutex.
+func (m *MapPollard) VerifLock() *verifsync.RWMutex { return m.rwLock }
